@@ -127,7 +127,7 @@ const DAYS: [&str; 8] = ["00", "01", "28", "29", "30", "31", "32", "99"];
 const HOURS: [&str; 4] = ["00", "12", "23", "24"];
 const MINUTES: [&str; 4] = ["00", "30", "59", "60"];
 const SECONDS: [&str; 5] = ["00", "30", "59", "60", "61"];
-const FRACS: [&str; 9] = ["", ".0", ".5", ".999999999", ".000000001", ".1234567891", ".9999999999", ".", ".12345678901234567890"];
+const FRACS: [&str; 15] = ["", ".0", ".5", ".999999999", ".000000001", ".1234567891", ".9999999999", ".", ".12345678901234567890", ".9999999999999999999", ".99999999999999999999", ".18446744073709551616", ".00000000000000000000000000000", ".999999999999999999999999999999", ".1234567890123456789012345678901234567890"];
 const OFFSETS: [&str; 16] = ["", "Z", "z", "+00:00", "-00:00", "+23:59", "-23:59", "+24:00", "-24:00", "+00:60", "-00:60", "+00:99", "+12:30", "+1:00", "+0100", "+23:60"];
 const DELIMS: [&str; 3] = ["T", "t", " "];
 
